@@ -124,6 +124,7 @@ def run_pack(ctx, cfg, workers=8, timeout=1500):
            "messages": cfg["nmsg"], "ids": cfg["ids"], "read_id_list_max": cfg["rdmax"], "states": res.distinct,
            "transitions_replayed": summary["n"], "compared_per_operation": ops,
            "skipped_prefix_already_diverged": summary.get("tainted_prefix", 0),
+           "skipped_other_branch_of_early_remove": summary.get("other_branch", 0),
            "watchdog_retries": summary.get("watchdog_retries", 0), "timing_unconfirmed": summary.get("timing_unconfirmed", 0),
            "divergent_transitions": summary["divergences"], "wall_s": round(res.wall, 1), "target": cfg.get("target", "mem"),
            "ladder_rule1": cfg.get("rule1", "front"), "reinit": cfg.get("reinit", "new") if cfg.get("target") == "redis" else None}
